@@ -874,7 +874,8 @@ def gen_pbnw_fns(path=None, overrides=None):
     if path is not None:
         _SRC[REL] = path
     try:
-        tr = Translator(parse(REL))
+        # extract-method / conditional normal forms first (gen.py): a harmless restructuring of the source gives the same translation
+        tr = Translator(gen.inline_private_helpers(parse(REL), 'PbnWriter', {'__init__', 'write_line', 'write_header', 'write_tag_pair', 'create_contents_sequence', 'write_board_result'}))
         defs = tr.run()
         tables = tr.tables()
     finally:
